@@ -560,6 +560,10 @@ type eciCase struct {
 	Full  bool
 	Kind  string `json:",omitempty"` // "" | "persist" | "switch"
 	Other int    `json:",omitempty"`
+	// Follow: what stands behind the designator: "" a byte segment; "numeric" 123; "alnum" AB;
+	// "kanji" one double-byte character; "none" the terminator; "eci" a second, registered,
+	// designator (3) and the byte segment
+	Follow string `json:",omitempty"`
 }
 
 var version1, _ = qrdec.Version_GetVersionForNumber(1)
@@ -577,7 +581,30 @@ func eciClass(v int) string {
 func eciOne(l *mc.Local, c eciCase) {
 	var w bw
 	w.eci(c.Value, c.Form)
-	w.byteSeg(universal)
+	followText := ""
+	switch c.Follow {
+	case "":
+		w.byteSeg(universal)
+	case "numeric":
+		w.put(1, 4)
+		w.put(3, 10)
+		w.put(123, 10)
+		followText = "123"
+	case "alnum":
+		w.put(2, 4)
+		w.put(2, 9)
+		w.put(10*45+11, 11)
+		followText = "AB"
+	case "kanji":
+		w.put(8, 4)
+		w.put(1, 8)
+		w.put((0x935F-0x8140)>>8*0xC0+(0x935F-0x8140)&0xFF, 13)
+		followText = "\u70b9"
+	case "none":
+	case "eci":
+		w.eci(3, 1)
+		w.byteSeg(universal)
+	}
 	data := w.codewords(qr.DataCodewords(1, qr.L))
 	var text string
 	var err error
@@ -606,12 +633,23 @@ func eciOne(l *mc.Local, c eciCase) {
 	}
 	if d := defByValue[c.Value]; d != nil && c.Form != 4 {
 		want := decodeWith(d.enc, universal)
+		switch c.Follow {
+		case "":
+		case "eci":
+			want = decodeWith(defByValue[3].enc, universal)
+		default:
+			want = followText // numeric / alphanumeric / Kanji data does not depend on the ECI
+		}
+		cls += "/" + c.Follow
 		l.Distinct("nontrivial", fmt.Sprint("eci/", c.Value, "/", c.Form, c.Full))
 		l.Distinct("outcomes", "eci/"+d.key())
 		if err != nil || text != want {
 			chk.Violation("C15/eci-value/registered/"+d.key(), fmt.Sprintf("symbol with ECI %d (%d-byte form) + bytes %X: text %q err %v, expected %q (%s)", c.Value, c.Form, universal, text, err, want, d.key()), c)
 		}
 		return
+	}
+	if c.Follow != "" {
+		cls += "/followed-by-" + c.Follow
 	}
 	l.Distinct("outcomes", "eci/"+cls)
 	if err == nil {
@@ -716,6 +754,38 @@ func runECIStream() {
 			}
 		})
 	chk.Sample("eci-stream", eciCase{Sub: "eci-stream", Value: 170, Form: 2, Full: true})
+
+	// what stands behind the designator: an unregistered or out-of-range number is a format error
+	// whether or not a byte segment ever uses it
+	var fc []eciCase
+	fset := map[int]bool{}
+	for v := 0; v <= 1100; v++ {
+		fset[v] = true
+	}
+	for _, v := range []int{16383, 16384, 65535, 65536, 999999, 1000000, 1048576, 2097151} {
+		fset[v] = true
+	}
+	var fvs []int
+	for v := range fset {
+		fvs = append(fvs, v)
+	}
+	sort.Ints(fvs)
+	for _, v := range fvs {
+		for _, f := range formsOf(v) {
+			for _, fo := range []string{"numeric", "alnum", "kanji", "none", "eci"} {
+				for _, full := range []bool{false, true} {
+					fc = append(fc, eciCase{Sub: "eci-stream", Value: v, Form: f, Full: full, Follow: fo})
+				}
+			}
+		}
+	}
+	chk.Range(fmt.Sprintf("(1c') ECI designator 0..1100 (and form / decade boundaries) in every form, FOLLOWED by a numeric, alphanumeric or Kanji segment, by nothing, or by a second (registered) designator and the byte segment; bit stream and full version 1-L symbol: registered -> the data behind it, anything else -> format error [%d cases]", len(fc)), (len(fc)+ch2-1)/ch2,
+		func(i int) string { return fmt.Sprint(fc[i*ch2]) },
+		func(l *mc.Local, i int) {
+			for k := i * ch2; k < (i+1)*ch2 && k < len(fc); k++ {
+				eciOne(l, fc[k])
+			}
+		})
 
 	// persistence and switch: [ECI v, bytes][bytes] and [ECI v, bytes][ECI w, bytes]
 	var regs []int
